@@ -293,9 +293,12 @@ package catalog
 //@   attr pure deterministic nopanic
 //@ extern (github.com/jsightapi/jsight-api-core/catalog.InteractionID).Protocol(i)
 //@   attr pure deterministic nopanic
+// the title of a path-derived tag: total for every path, also one made of "." and empty segments only (C01)
 //@ func pathTagTitle(path)
-//@   attr trusted
+//@   property C01,C05
 //@   modifies nothing
+//@ func pathTagTitle loop 1
+//@   invariant 0 <= p.off
 
 // ---------------------------------------------------------------------------
 // "A failure of a catalog setter is never dropped" (C03): gFailed counts the setter calls that returned an error.
